@@ -112,9 +112,11 @@ def witnessWorld : World :=
     loaded := ["b"], configId := 0, simulPath := "sim.c", binOf := bo, objOf := oo }
 
 /-- a inherits b inherits c; b has no saved binary; c, a header of b and the simul_efun file are all newer than a's
-    binary: the old decision used the binary, the repaired one does not -/
+    binary: the old decision used the binary — even a damaged one (there was no checksum) —, the repaired one does not -/
 theorem old_indirect_inherit_not_checked :
-    oldLoadBinary witnessWorld "a.c" = .use ∧ loadBinary witnessWorld "a.c" = .stale "simul" ∧
+    oldLoadBinary witnessWorld "a.c" = .use ∧
+      oldLoadBinary { witnessWorld with bins := witnessWorld.bins.map (fun e => (e.1, { e.2 with intact := false })) } "a.c" = .use ∧
+      loadBinary witnessWorld "a.c" = .stale "simul" ∧
       loadBinary { witnessWorld with simulPath := "" } "a.c" = .stale "behind-inherited" := by
   decide
 
